@@ -69,9 +69,9 @@ func (m *maskCfg) mode() string {
 // testCase is one configuration with the events sent through it, in order,
 // through one plugin instance (so the plugin's buffers are reused).
 type testCase struct {
-	ID     int        `json:"id"`
-	Config pluginCfg  `json:"config"`
-	Events []string   `json:"events"` // JSON documents as sent to the pipeline
-	Class  string     `json:"class"`  // generator class of the configuration
-	trees  []*jnode   // parsed events (generator side)
+	ID     int       `json:"id"`
+	Config pluginCfg `json:"config"`
+	Events []string  `json:"events"` // JSON documents as sent to the pipeline
+	Class  string    `json:"class"`  // generator class of the configuration
+	trees  []*jnode  // parsed events (generator side)
 }
